@@ -1,1 +1,63 @@
-(* Front/ResolveProofs.v -- stub, to be filled *)
+(* Front/ResolveProofs.v -- lookup-level facts about the resolver model (Front/Resolve.v). *)
+From A1 Require Import Front.Resolve.
+Local Open Scope N_scope.
+
+Section Facts.
+  Variable scope : list umodel.
+  Variable model : umodel.
+
+  (* a reference bound (locally or through IMPORTS, whatever the lookup finds) to the INTEGER literal v resolves
+     exactly like the literal v: INTEGER range bounds *)
+  Lemma subst_i64 : forall name v,
+    value_reference scope (lookup_fuel scope) model name = Found (LInteger v) ->
+    resolve_i64 scope model (Ref name) = resolve_i64 scope model (Lit v).
+  Proof. intros name v H. unfold resolve_i64. rewrite H. reflexivity. Qed.
+
+  (* SIZE bounds: like the literal, for values that are sizes (0 <= v < 2^64) *)
+  Lemma subst_usize : forall name v,
+    (0 <= v < 18446744073709551616)%Z ->
+    value_reference scope (lookup_fuel scope) model name = Found (LInteger v) ->
+    resolve_usize scope model (Ref name) = resolve_usize scope model (Lit (Z.to_N v)).
+  Proof.
+    intros name v Hv H. unfold resolve_usize. rewrite H. unfold U64_MOD.
+    rewrite Z.mod_small by exact Hv. reflexivity.
+  Qed.
+
+  (* DEFAULT values whose component type is not a reference to an ENUMERATED with an item of that name *)
+  Lemma subst_default : forall name l t,
+    value_reference scope (lookup_fuel scope) model name = Found l ->
+    (forall r tg, t <> TRef r tg) ->
+    resolve_default scope model t (Some (Ref name)) = resolve_default scope model t (Some (Lit l)).
+  Proof.
+    intros name l t H Hn. unfold resolve_default, resolve_literal. rewrite H.
+    destruct t; try reflexivity. exfalso. eapply Hn. reflexivity.
+  Qed.
+
+  Lemma unresolved_i64 : forall name,
+    value_reference scope (lookup_fuel scope) model name = NotFound ->
+    resolve_i64 scope model (Ref name) = RErr (FailedToResolveReference name) /\
+    resolve_usize scope model (Ref name) = RErr (FailedToResolveReference name) /\
+    resolve_literal scope model (Ref name) = RErr (FailedToResolveReference name).
+  Proof. intros name H. unfold resolve_i64, resolve_usize, resolve_literal. rewrite H. repeat split. Qed.
+
+  Lemma non_integer : forall name l,
+    value_reference scope (lookup_fuel scope) model name = Found l ->
+    (forall v, l <> LInteger v) ->
+    resolve_i64 scope model (Ref name) = RErr (FailedToParseLiteral (name_prefix ++ name)) /\
+    resolve_usize scope model (Ref name) = RErr (FailedToParseLiteral (name_prefix ++ name)).
+  Proof.
+    intros name l H Hn. unfold resolve_i64, resolve_usize. rewrite H.
+    destruct l; try (split; reflexivity). exfalso. eapply Hn. reflexivity.
+  Qed.
+
+  (* an error of a bound is an error of the SIZE / of the INTEGER type that contains it: never a substituted bound *)
+  Lemma size_error_propagates : forall lo hi e err,
+    resolve_usize scope model lo = RErr err ->
+    resolve_size scope model (SRange lo hi e) = RErr err /\ resolve_size scope model (SFix lo e) = RErr err.
+  Proof. intros lo hi e err H. unfold resolve_size. rewrite H. split; reflexivity. Qed.
+
+  Lemma integer_error_propagates : forall lo hi e c err,
+    resolve_i64 scope model lo = RErr err ->
+    resolve_ty scope model (TInteger (Some lo, hi, e) c) = RErr err.
+  Proof. intros lo hi e c err H. cbn [resolve_ty]. unfold resolve_opt_i64. rewrite H. reflexivity. Qed.
+End Facts.
